@@ -48,6 +48,7 @@ func ingestConfigs() []ingestCfg {
 		{"vc7-block-without-proof-1", []*Atom{Ne(blk, tNil), Eq(proof, tNil)}},
 		{"vc7-block-without-proof-2", []*Atom{Ne(blk, tNil), Ne(proof, tNil), Le(Len(raw(proof)), Const("0"))}},
 		{"vc7-proof-without-block", []*Atom{Eq(blk, tNil), Ne(proof, tNil), Lt(Const("0"), Len(raw(proof)))}},
+		{"nv-vote-proof-nonempty", []*Atom{Ne(Call("protocol.PreparedProof", Call("protocol.SignedHeader", Var("vote"))), tNil), Lt(Const("0"), Len(raw(Call("protocol.PreparedProof", Call("protocol.SignedHeader", Var("vote"))))))}},
 		{"nv-proven-hash-nonnil", []*Atom{Ne(Call("protocol.BlockHash", Call("protocol.PreprepareBlockRef", Call("protocol.PreparedProof", Call("protocol.SignedHeader", Var("vote"))))), tNil)}},
 	}
 }
@@ -184,6 +185,7 @@ func (ig *ingest) onEffect(e *Effect) {
 	a := ig.a
 	ig.gates(e)
 	ig.roundRules(e)
+	ig.moreGates(e)
 	switch {
 	case e.Kind == "call" && e.Name == "rawmessagesfilter.HandleConsensusMessage":
 		ig.deliver(e)
@@ -228,6 +230,14 @@ func (ig *ingest) onEffect(e *Effect) {
 				Truth(Call("interfaces.ValidateBlockCommitment", k.BU, ht(H), blockOf(m), hash(Call("protocol.PreprepareBlockRef", proofOf(H))))))
 		}
 	case e.Kind == "store" && e.Name == "termincommittee.TermInCommittee.latestViewThatProcessedVCMOrNVM":
+		if e.Config == "nv-vote-proof-nonempty" && len(e.Args) == 1 && isNetMsg(e.Args[0]) {
+			ev := a.NewEval(e, ig.r)
+			for _, b := range ev.Find(Truth(T("istype", "interfaces.NewViewMessage", Var("m")))) {
+				if isNetMsg(b["m"]) {
+					ig.proofInstanceInNV(ev, Call("protocol.ViewChangeConfirmationsIterator", hdr(b["m"])))
+				}
+			}
+		}
 		if e.Config == "" && len(e.Args) == 1 && isNetMsg(e.Args[0]) {
 			// NEW_VIEW acceptance or election; told apart by the message type on the path
 			ev := a.NewEval(e, ig.r)
@@ -254,7 +264,7 @@ func (ig *ingest) deliver(e *Effect) {
 	if e.Entry == idE1 {
 		ev.Require("F1.own", props("C08", "C17"), "a delivered message is not the node's own", "net", Ne(mid(snd(m)), Field(rmf, "myMemberId")))
 		ev.Require("F1.height", props("C08", "C17"), "a delivered message's height equals the current height (not past, not future)", "net", Eq(ht(H), k.SHeight))
-		ev.Require("F1.instance", props("C08", "C17", "C03"), "a delivered message belongs to this instance", "net", Eq(inst(H), Field(rmf, "instanceId")))
+		ev.Require("F1.instance", props("C08", "C17", "C03", "C07"), "a delivered message belongs to this instance", "net", Eq(inst(H), Field(rmf, "instanceId")))
 		ev.Require("F1.handler", props("C17"), "delivery only to a non-nil handler", "net", Ne(This("rawmessagesfilter.ConsensusMessagesHandler"), tNil))
 	} else {
 		// drained messages: read at the key Read(State.height)
@@ -297,7 +307,7 @@ func (ig *ingest) cacheInsert(e *Effect) {
 	ev.Verdict("F4.form", props("C17"), "cache values are built as []{m} or append(old[key], m) (order preserving)", "net", okForm, "value form "+val.Key())
 	H := hdr(m)
 	ev.Require("F2.own", props("C08", "C17"), "a cached message is not the node's own", "net", Ne(mid(snd(m)), Field(rmf, "myMemberId")))
-	ev.Require("F2.instance", props("C08", "C17", "C03"), "a cached message belongs to this instance", "net", Eq(inst(H), Field(rmf, "instanceId")))
+	ev.Require("F2.instance", props("C08", "C17", "C03", "C07"), "a cached message belongs to this instance", "net", Eq(inst(H), Field(rmf, "instanceId")))
 	ev.Require("F2.future", props("C08", "C17"), "a cached message is for a future height", "net", Lt(k.SHeight, ht(H)))
 	ev.Verdict("F2.key", props("C08", "C17"), "the cache key is the message's own height", "net", ev.Same(key, ht(H)), "key "+key.Key())
 	ev.Require("F5.newest", props("C17"), "only the newest future height is cached", "net", Le(Field(rmf, "latestFutureBlockHeight"), key))
@@ -482,7 +492,7 @@ func (ig *ingest) ingP(e *Effect, m *Term) {
 	ev.Require("P2", props("C08", "C11", safety), "a network PREPARE is stored only if its sender is a committee member", "net", k.Member(mid(S)))
 	ev.Require("P3", props("C08", "C11", safety), "a network PREPARE's signed header is typed PREPARE", "net", Eq(mtype(H), k.ProtoConst("LEAN_HELIX_PREPARE")))
 	ev.Require("P4", props("C08"), "a PREPARE from a view below the current one is ignored", "net", Le(k.SView, vw(H)))
-	ev.Require("P5", props("C08", "C11"), "a PREPARE from the leader of its view is ignored", "net", Ne(mid(S), k.LeaderOf(vw(H))))
+	ev.Require("P5", props("C08", "C11", "C05"), "a PREPARE from the leader of its view is ignored", "net", Ne(mid(S), k.LeaderOf(vw(H))))
 	ig.exactStaleness(ev, "L7.P", H, []string{Le(k.SView, vw(H)).Key()})
 }
 
@@ -528,14 +538,24 @@ func (ig *ingest) exactStaleness(ev *Eval, rule string, H *Term, allowed []strin
 	var extra []string
 	for _, key := range ev.facts.SortedKeys() {
 		f := ev.facts[key]
-		if f.Pred != "eq" && f.Pred != "lt" && f.Pred != "le" {
+		if f.Pred != "eq" && f.Pred != "lt" && f.Pred != "le" && f.Pred != "truth" {
 			continue
 		}
-		if len(f.Args) != 2 {
+		// any fact that relates the message's view to the current view (directly or inside a compound condition)
+		if !(strings.Contains(key, vk) && strings.Contains(key, sk)) {
 			continue
 		}
-		a0, a1 := f.Args[0].Key(), f.Args[1].Key()
-		if !((a0 == vk && a1 == sk) || (a0 == sk && a1 == vk)) {
+		if f.Pred != "truth" {
+			if len(f.Args) != 2 {
+				continue
+			}
+			a0, a1 := f.Args[0].Key(), f.Args[1].Key()
+			if !((a0 == vk && a1 == sk) || (a0 == sk && a1 == vk)) {
+				continue
+			}
+		} else if !f.Args[0].Contains(func(t *Term) bool {
+			return t.Op == "bin" && len(t.Args) == 2 && ((t.Args[0].Key() == vk && t.Args[1].Key() == sk) || (t.Args[0].Key() == sk && t.Args[1].Key() == vk))
+		}) {
 			continue
 		}
 		isAllowed := false
@@ -631,12 +651,12 @@ func (ig *ingest) ingNV(e *Effect, ev *Eval, m *Term) {
 	PH := Call("protocol.SignedHeader", P)
 	votes := Call("protocol.ViewChangeConfirmationsIterator", H)
 	ev.Require("NV1", props("C07", "C08", "C10"), "a NEW_VIEW for a view below the current one is ignored", "net", Le(k.SView, vw(H)))
-	ev.Require("NV2", props("C07", safety), "a NEW_VIEW is accepted only after its signature over its own header verified", "net", k.Verify(H, S))
-	ev.Require("NV3", props("C07", safety), "a NEW_VIEW is accepted only from the leader of its view", "net", Eq(mid(S), k.LeaderOf(vw(H))))
+	ev.Require("NV2", props("C07", "C12", safety), "a NEW_VIEW is accepted only after its signature over its own header verified", "net", k.Verify(H, S))
+	ev.Require("NV3", props("C07", "C12", safety), "a NEW_VIEW is accepted only from the leader of its view", "net", Eq(mid(S), k.LeaderOf(vw(H))))
 	ev.Require("NV4", props("C07", "C08", safety), "a NEW_VIEW's signed header is typed NEW_VIEW", "net", Eq(mtype(H), k.ProtoConst("LEAN_HELIX_NEW_VIEW")))
 	vs := Call("protocol.Sender", bound)
 	vh := Call("protocol.SignedHeader", bound)
-	ev.Require("NV5", props("C07", safety), "the embedded votes' senders reach quorum weight in the term's committee", "net", k.Quorum(T("map", "", votes, mid(vs))))
+	ev.Require("NV5", props("C07", "C12", safety), "the embedded votes' senders reach quorum weight in the term's committee", "net", k.Quorum(T("map", "", votes, mid(vs))))
 	ev.Require("NV6", props("C07", safety), "every embedded vote is for the NEW_VIEW's height and view", "net",
 		ForAll(votes, Eq(ht(vh), ht(H))), ForAll(votes, Eq(vw(vh), vw(H))))
 	ev.Require("NV7", props("C07", safety), "embedded votes come from pairwise distinct senders", "net", Unique(votes, mid(vs)))
